@@ -326,7 +326,7 @@ def run(ctx):
     cov = {"states": paths, "transitions": paths * K, "traces_validated_against_impl": 0, "samples": samples, "exhaustive": True,
            "functions_encoded": sorted(set(f for r in res + res2 for f in r["fns"])),
            "bounds": f"every ordered forest with <= {nmax} nodes and height <= 3, built through the real PairsBuilder::{{new,rule,rule_with,tag,build}} over the input {INPUT!r} (one character per leaf, including a newline and a two-byte character); "
-                     f"every interleaving of {K} operations next/next_back/len(+size_hint)/clone/peek on Pairs, FlatPairs and Tokens chosen by symbolic selectors; per pair: as_rule, as_str, as_span, line_col, into_inner().len(), as_node_tag; Pairs::single, Pairs::as_str; Display ({} and {:#}) and Debug ({:?}) of every pair and of the top-level Pairs view against the text derived from the tree",
+                     f"every interleaving of {K} operations next/next_back/len(+size_hint)/clone/peek on Pairs, FlatPairs and Tokens chosen by symbolic selectors; per pair: as_rule, as_str, as_span, line_col, into_inner().len(), as_node_tag; Pairs::single, Pairs::as_str; Display (plain and alternate) and Debug of every pair and of the top-level Pairs view against the text derived from the tree",
            "queries_discharged": sum(r["queries"] for r in res), "solver_time_s": round(sum(r["solver_s"] for r in res), 2), "events": events[:10],
            "explanation": "states = explored interleavings; exhaustive within the stated forest and history bounds"}
     write_evidence(ctx, "model_checking", cov,
